@@ -177,6 +177,22 @@ pub fn history(rec: &mut Recorder, inp: &Input, arm: Arm, bs: usize, k_next: Opt
         // "asking a scanner for its best hit": the by-value Scanner::max, or - tag *_by_ref - the maximum taken over a
         // borrowed scanner (`scanner.by_ref().max()`, the provided Iterator::max over next() with `Ord for Hit`)
         let by_ref = tag.ends_with("by_ref");
+        if tag.contains("raised") {
+            // the threshold is raised between the consumed hits and the request for the best one: to the score of one of
+            // the qualifying positions, just above the best score (nothing qualifies any more) or to itself
+            let mut q: Vec<i64> = window_scores(&inp.pssm, &inp.ranks).into_iter().filter(|&s| s >= inp.thr).collect();
+            q.sort();
+            let t2 = match (calls + l + m) % 4 {
+                0 => inp.thr,
+                1 if !q.is_empty() => q[q.len() - 1] + 1,
+                2 if !q.is_empty() => q[q.len() - 1],
+                _ if !q.is_empty() => q[(q.len() * 2) / 3],
+                _ => inp.thr + 3,
+            };
+            scanner.threshold(ungrid(t2, GS));
+            rec.emit(json!({"ev":"raise","thr":t2}));
+            rec.class("threshold_raised_before_max");
+        }
         let r = guarded(move || if by_ref { scanner.by_ref().max() } else { scanner.max() });
         match r {
             Ok(Some(h)) => rec.emit(json!({"ev":"max","ret":"hit","pos":h.position(),"score":grid(h.score(), GS)})),
@@ -465,6 +481,10 @@ pub fn record_c03(rec: &mut Recorder, seed: u64, thorough: bool) {
         if l < 4000 || thorough {
             history(rec, &inp, Arm::all()[(kind + 1) % 3], bs2, Some(k), kind % 3 == 0, "max");
             history(rec, &inp, arm, bs2, Some(0), false, if kind % 2 == 0 { "max_by_ref" } else { "max" });
+        }
+        if l < 4000 && nqual >= 2 {
+            // permissive threshold, some hits consumed (so that others stay buffered), threshold raised, then the best hit
+            history(rec, &inp, arm, [bs, 256][kind % 2], Some(1 + kind % 3), false, "max_raised");
         }
     }
 }
